@@ -28,6 +28,10 @@ def run(rep):
     rnd = random.Random(rep.seed * 7331 + 5)
     base = [G.gen_design(rep.seed * 100003 + 77 + i, f"l{i}")[0] for i in range(n_logic)]
     base += [memgen.gen_mem_design(rep.seed * 500009 + 99 + i, f"m{i}", fill_prob=0.6, exact_lookup=(i % 3 == 0)) for i in range(n_mem)]
+    # designs with wide signals (64..400 bits; the simulator's whole-word code paths): lib/widegen.py
+    import widegen
+    n_wide = 20 if quick else 250
+    base += [widegen.gen_wide_design(rep.seed * 300007 + 55 + i, f"w{i}")[0] for i in range(n_wide)]
     # 1) learn the input pins (names, widths) of every design from a run with one stimulus
     G.write_programs(work / "probe.txt", base)
     circ.run_harness(harness, str(work / "probe.txt"), str(work), "pre", nstim=1, cycles=1)
@@ -75,6 +79,7 @@ def run(rep):
                                              variant=v, program=d, cycle=cy, pin=a["pins_out"][k][0], abstract_value=x, refined_value=y,
                                              abstract_stimulus=circ.stim_of(a), refined_stimulus=circ.stim_of(c)))
     rep.cov["circuit_level"] = dict(designs=len(groups), with_memories=sum(1 for d, _ in groups if any(l.startswith("mem ") for l in d)),
+                                    with_wide_signals=sum(1 for d, _ in groups if d[0].split()[1].startswith("w")),
                                     abstract_vs_refined_run_pairs=pairs, defined_abstract_pin_bits_compared=bits_defined, variants="constructed and default post-processing",
                                     skipped_runs=skipped, refinements_per_design=ncon, cycles=cycles)
     for vv in viol:
